@@ -343,6 +343,42 @@ pub fn run(prop: &'static str, tier: &str) -> i32 {
     evals += c[0];
     let _ = std::fs::remove_file(&image);
   }
+  // ---- stage (f): position in the block. Every template ends with `add r15, cycles`, whose
+  // host flags (auxiliary carry when the running count crosses a multiple of 16, parity of its
+  // low byte) are the only thing one guest instruction's template leaves behind for the next.
+  // Each encoding is therefore also run behind k NOPs for every k that moves the running
+  // cycle count through a full period of both, from both entry values of the cycle register
+  // (0, and 5 after an interrupt dispatch — modelled by 5 extra NOPs).
+  {
+    let ks: Vec<usize> = if thorough { (1..=37).collect() } else { vec![10, 15, 16, 31] };
+    let mut singles: Vec<Vec<u8>> = non_term.clone();
+    singles.extend(term.iter().cloned());
+    let ns = singles.len() as u64;
+    let total = ns * ks.len() as u64;
+    let vecp = vectors(if thorough { 4 } else { 2 });
+    let opts = PoolOpts { chunk: 64, bitmap_bits: 1 << 16, samples_per_child: 1, workers: crate::util::pool::default_workers().min(8), ..PoolOpts::default() };
+    let r = run_pool(
+      total,
+      &opts,
+      |_| JitWorld::new(),
+      |jw, case, ctx| {
+        let op = &singles[(case % ns) as usize];
+        let k = ks[(case / ns) as usize];
+        let mut code = vec![0u8; k];
+        code.extend_from_slice(op);
+        if !(op[0] != 0xCB && r1::info(op[0]).map(|i| i.3).unwrap_or(true)) {
+          code.extend_from_slice(&TERM);
+        }
+        let opn = if op[0] == 0xCB { format!("CB{:02X}", op[1]) } else { format!("{:02X}", op[0]) };
+        ctx.sample(|| J::obj().set("block", J::s(format!("NOP x {} ; {}", k, hex(op)))));
+        eval_block(prop, jw, ctx, &code, 0x0150, &format!("{}-after-{}-cycles", opn, k), "positioned", &vecp, k + 2);
+      },
+      |case, how| (format!("{} positioned-case={} crash={}", prop, case, how), J::obj().set("case", J::obj().set("index", J::u(case)))),
+    );
+    let c = rep.add_stage("cycle-position-prefixes", &format!("all {} single instructions behind k NOPs, k in {:?}", ns, ks), r);
+    programs += total;
+    evals += c[0];
+  }
   rep.evaluations = evals;
   rep.cov("programs", J::u(programs));
   rep.cov("disagreements_checked", J::u(rep.violations.iter().map(|v| v.count).sum()));
